@@ -8,7 +8,7 @@ import re
 from ..core import Ctx, RuleResult, finding, short, walk_no_nested
 from ..model import AnalysisError, norm
 from ..mutants import Mut
-from ..rules import dim, kind
+from ..rules import dim, fresh, kind, posbound
 from ..rules.defuse import DefUse
 from ..rules.util import callee_name, calls_in, cfg_of, lin_str, linear, nodes_where
 from ..tables import C01_DIM_EXCEPTIONS
@@ -19,7 +19,9 @@ EXPLANATION = (
     "(2) the same typing makes the list a flow Pile sums in rows() and the heights it renders from both ROWS sequences; (3) KIND: no item store / append on a frozenset or tuple "
     "(sizing(), pack() results); (4) Text: rows(), pack() and render() obtain the layout from the same get_line_translation(maxcol) and apply_text_layout appends exactly one output line "
     "per layout line on every path, so reported rows = rendered rows for Text by construction; (5) pad-to-fill direction: wherever a container brings a canvas to the requested size, "
-    "the amount handed to pad_trim_* is (target - actual) with `actual` the cols()/rows() of the very canvas being padded."
+    "the amount handed to pad_trim_* is (target - actual) with `actual` the cols()/rows() of the very canvas being padded; (6) POSBOUND: every comparison of a 0-based screen "
+    "coordinate (cursor element, col/row parameter) with an extent (size element, rows(), cols()) is half-open, so a cursor equal to the extent is outside; (7) FRESHLIST: padding/"
+    "trimming never edits in place a shard or cview list shared with the wrapped (possibly cached) canvas - otherwise a re-render of the unchanged child has a different size."
 )
 NOT_DECIDED = (
     "That composed canvases actually have the requested size for all trees/sizes/texts (value semantics of shards, layout and padding); truthfulness of sizing(); wide-character column "
@@ -207,6 +209,8 @@ def run(ctx: Ctx):
         kind.run_kind(p, "C01.3", mods, floor=40),
         rule_text_rows(ctx),
         rule_pad_to_fill(ctx),
+        posbound.run_posbound(p, "C01.6", mods, floor=8),
+        fresh.run_fresh(p, "C01.7", ["urwid.canvas"], floor=30),
     ]
 
 
@@ -224,6 +228,10 @@ MUTANTS = [
     Mut("text-render-width-mismatch", _TEXT, "Text.render", "return apply_text_layout(text, attr, trans, maxcol)", "return apply_text_layout(text, attr, trans, maxcol + 1)", "ORDER|widget.text.Text.render"),
     Mut("layout-skip-empty-line", _CANV, "apply_text_layout", "        line = []\n        linea = []", "        if not line_layout:\n            continue\n        line = []\n        linea = []", "ORDER|canvas.apply_text_layout"),
     Mut("frozenset-item-store", _PILE, "Pile.get_rows_sizes", "w_h_args: list[tuple[int, int] | tuple[int] | tuple[()]] = []", "w_h_args: list[tuple[int, int] | tuple[int] | tuple[()]] = []\n        self.contents[0][0].sizing()[0] = 1", "KIND|", note="item store on a frozenset"),
+    Mut("scrollable-cursor-closed-bound", "urwid/widget/scrollable.py", "Scrollable.render", "if cursrow >= maxrow or cursrow < 0:", "if cursrow > maxrow or cursrow < 0:", "POSBOUND|widget.scrollable.Scrollable.render"),
+    Mut("pad-bottom-shared-shards", _CANV, "CompositeCanvas.pad_trim_top_bottom", "            if orig_shards is self.shards:\n                self.shards = self.shards.copy()\n", "", "FRESHLIST|canvas.CompositeCanvas.pad_trim_top_bottom"),
+    Mut("pad-right-shared-cviews", _CANV, "CompositeCanvas.pad_trim_left_right", "new_top_cviews = top_cviews.copy()", "new_top_cviews = top_cviews", "FRESHLIST|canvas.CompositeCanvas.pad_trim_left_right"),
+    Mut("twin-pad-copy-via-list", _CANV, "CompositeCanvas.pad_trim_left_right", "new_top_cviews = top_cviews.copy()", "new_top_cviews = list(top_cviews)", twin=True),
     Mut("twin-pad-regrouped", _PILE, "Pile.render", "out.pad_trim_top_bottom(0, size[1] - out.rows())", "out.pad_trim_top_bottom(0, -(out.rows() - size[1]))", twin=True),
     Mut("twin-pad-via-local", _COLS, "Columns.render", "canvas.pad_trim_left_right(0, size[0] - canvas.cols())", "missing = size[0] - canvas.cols()\n            canvas.pad_trim_left_right(0, missing)", twin=True),
     Mut("twin-rows-via-local", _TEXT, "Text.rows", "return len(self.get_line_translation(maxcol))", "trans = self.get_line_translation(maxcol)\n        return len(trans)", twin=True),
